@@ -236,14 +236,29 @@ class _PyPaths(object):
         self.exits = []
 
     def truth(self, test, env):
-        """True / False / None (unknown) and a refinement function."""
+        """(value, what the true branch implies, what the false branch implies);
+        value True / False / None (unknown); implications are lists of (key, bool)"""
         if isinstance(test, ast.Name):
-            return env.get(test.id), (test.id, True)
+            return env.get(test.id), [(test.id, True)], [(test.id, False)]
         if isinstance(test, ast.UnaryOp) and isinstance(test.op, ast.Not):
-            t, ref = self.truth(test.operand, env)
-            return (None if t is None else not t), (ref[0], not ref[1]) if ref else None
+            t, rt, rf = self.truth(test.operand, env)
+            return (None if t is None else not t), rf, rt
+        if isinstance(test, ast.BoolOp):
+            parts = [self.truth(v, env) for v in test.values]
+            vals = [p[0] for p in parts]
+            is_and = isinstance(test.op, ast.And)
+            if is_and:
+                val = False if any(v is False for v in vals) else (True if all(v is True for v in vals) else None)
+            else:
+                val = True if any(v is True for v in vals) else (False if all(v is False for v in vals) else None)
+            all_side = [r for p in parts for r in (p[1] if is_and else p[2])]   # and-true / or-false: every operand
+            unknown = [p for p in parts if p[0] is None]
+            one_side = []
+            if len(unknown) == 1 and all((p[0] is True) if is_and else (p[0] is False) for p in parts if p[0] is not None):
+                one_side = unknown[0][2] if is_and else unknown[0][1]          # the only open operand decides
+            return (val, all_side, one_side) if is_and else (val, one_side, all_side)
         key = pyfront.unparse(test)
-        return env.get(key), (key, True)
+        return env.get(key), [(key, True)], [(key, False)]
 
     def block(self, body, states):
         for st in body:
@@ -256,13 +271,21 @@ class _PyPaths(object):
         out = []
         if isinstance(st, ast.If):
             for env, un in states:
-                t, ref = self.truth(st.test, env)
+                t, rt, rf = self.truth(st.test, env)
                 for branch, body in ((True, st.body), (False, st.orelse)):
                     if t is not None and t != branch:
                         continue
                     e2 = dict(env)
-                    if ref is not None:
-                        e2[ref[0]] = (branch == ref[1])
+                    for k, v in (rt if branch else rf):
+                        e2[k] = v
+                    if isinstance(st.test, (ast.BoolOp, ast.UnaryOp)):
+                        e2["__facts__"] = tuple(e2.get("__facts__", ())) + ((st.test, branch),)
+                    # compound conditions seen earlier may now decide one of their operands
+                    for _ in range(3):
+                        for ftest, fval in e2.get("__facts__", ()):
+                            _t, frt, frf = self.truth(ftest, e2)
+                            for k, v in (frt if fval else frf):
+                                e2[k] = v
                     out.extend(self.block(body, [(e2, un)]))
             return out
         if isinstance(st, ast.Return):
@@ -287,8 +310,11 @@ class _PyPaths(object):
                             else:
                                 e2.pop(tt.id, None)
                             # expressions mentioning the name become unknown
-                            for k in [k for k in e2 if k != tt.id and tt.id in k.split()]:
+                            for k in [k for k in e2 if k != tt.id and k != "__facts__" and tt.id in k.split()]:
                                 e2.pop(k)
+                            e2["__facts__"] = tuple(
+                                (ft, fv) for ft, fv in e2.get("__facts__", ())
+                                if not any(isinstance(x, ast.Name) and x.id == tt.id for x in ast.walk(ft)))
             out.append((e2, un2))
         return out
 
